@@ -372,24 +372,25 @@ func forRof(f *forExpander) forStateFn {
 		f.next()
 	}
 
+	// the loop specific names of the line labels, looked up per token (a
+	// body token was compared with every label, and the name was formatted
+	// for every comparison)
+	forLabels := make(map[string]string, len(f.forLineLabels))
+	for _, label := range f.forLineLabels {
+		if _, seen := forLabels[label]; !seen {
+			forLabels[label] = fmt.Sprintf("__for_%s_%s", f.forCountLabel, label)
+		}
+	}
+
 	for i := 1; i <= f.forCount; i++ {
 		for _, tok := range f.forContent {
 			if tok.typ == tokText {
 				if tok.val == f.forCountLabel {
 					f.tokens <- token{tokNumber, fmt.Sprintf("%d", i)}
+				} else if forLabel, found := forLabels[tok.val]; found {
+					f.tokens <- token{tokText, forLabel}
 				} else {
-					found := false
-					for _, label := range f.forLineLabels {
-						forLabel := fmt.Sprintf("__for_%s_%s", f.forCountLabel, label)
-						if tok.val == label {
-							f.tokens <- token{tokText, forLabel}
-							found = true
-							break
-						}
-					}
-					if !found {
-						f.tokens <- tok
-					}
+					f.tokens <- tok
 				}
 			} else {
 				f.tokens <- tok
